@@ -282,6 +282,8 @@ class StmtMixin:
 
     def coerce_field(self, val, fs: Sort, st):
         v0 = self.deref(val, st)
+        if fs.kind == "dict" and isinstance(v0, VFunc):
+            return V(fs, self.to_term(v0, fs, st))
         if fs.kind == "opt":
             if isinstance(v0, V) and v0.sort == fs:
                 return val
